@@ -456,6 +456,14 @@ class WorkflowConductor(object):
         ):
             return
 
+        # If the workflow is resumed, then resume the with items tasks that were paused along with
+        # the workflow. Otherwise, they keep the workflow from running when another task completes.
+        if current_status in statuses.PAUSE_STATUSES and updated_status in [
+            statuses.RUNNING,
+            statuses.RESUMING,
+        ]:
+            self._resume_tasks_paused_by_workflow()
+
         # Otherwise, if status has not changed as expected, then raise exception.
         if status != current_status and current_status == updated_status:
             # Revert any task status change made above since the request is rejected.
@@ -463,6 +471,25 @@ class WorkflowConductor(object):
                 task_state["status"] = task_status
 
             raise exc.InvalidWorkflowStatusTransition(current_status, wf_ex_event.name)
+
+    def _resume_tasks_paused_by_workflow(self):
+        tasks = self.workflow_state.get_tasks_by_status([statuses.PAUSING, statuses.PAUSED])
+
+        for idx, task_state in tasks:
+            staged_task = self.workflow_state.get_staged_task(task_state["id"], task_state["route"])
+
+            # Skip the task if it is not a with items task or if it is one of its own
+            # items that is pausing, paused, or pending.
+            if not staged_task or "items" not in staged_task:
+                continue
+
+            if any(
+                item["status"] in statuses.PAUSE_STATUSES + [statuses.PENDING]
+                for item in staged_task["items"]
+            ):
+                continue
+
+            task_state["status"] = statuses.RUNNING
 
     def get_workflow_initial_context(self):
         return json_util.deepcopy(self.workflow_state.contexts[0])
@@ -1380,6 +1407,9 @@ class WorkflowConductor(object):
 
         # Reset the workflow output.
         self.reset_workflow_output()
+
+        # Resume the with items tasks that were paused along with the workflow.
+        self._resume_tasks_paused_by_workflow()
 
         # Finally, reset workflow status to resuming if preparation above succeeded.
         self.workflow_state.status = statuses.RESUMING
